@@ -293,10 +293,21 @@ def real_reader(cfg, inp):
             reader = S.ComputedTabularDataReader(T.DataFrameReader(df), "d", np.dtype("float64"), lambda x: x["a"] + 1)
             names = ["a", "b", "c", "d"]
             exp = df.assign(d=df["a"] + 1)
-        columns, cs = inp["columns"], int(inp["chunk_size"])
+        columns, cs0 = inp["columns"], int(inp["chunk_size"])
         want = names if columns is None else columns
         if kind == "parquet" and n == 0:
             return dict(skip=True)
+        # the real file has a row-group layout the symbolic table does not know: try every chunk size for Parquet
+        for cs in ([cs0] if kind != "parquet" else [cs0] + [c for c in range(1, n + 2) if c != cs0]):
+            v = _real_reader_once(reader, kind, columns, cs, exp, want, n)
+            if v is not None:
+                return v
+    return dict(outputs=None, violation=None)
+
+
+def _real_reader_once(reader, kind, columns, cs, exp, want, n):
+    import pandas as pd
+    if True:
         try:
             whole = reader.read(columns=columns)
             chunks = list(reader.get_chunked_data_iterator(chunk_size=cs, columns=columns))
@@ -316,7 +327,7 @@ def real_reader(cfg, inp):
                 return dict(violation="chunk sizes %s for chunk_size %d" % ([len(c) for c in chunks], cs))
         elif n:
             return dict(violation="no chunks for %d rows" % n)
-    return dict(outputs=None, violation=None)
+    return None
 
 
 def real_writer(cfg, inp):
